@@ -226,11 +226,13 @@ struct Built {
 fn text_string(r: &mut StdRng, c: &str) -> String {
     match c {
         "plain" => (0..r.gen_range(1..9)).map(|_| (b'a' + r.gen_range(0..26)) as char).collect(),
-        "reserved" => ["a b&c=d", "q?x#y", "100%", "a;b,c", "\"quoted\"", "<tag>", "semi;colon", "at@sign:colon", "[br]{ace}"][r.gen_range(0..9)].to_string(),
+        "reserved" => ["a b&c=d", "q?x#y", "100%", "a;b,c", "\"quoted\"", "<tag>", "semi;colon", "at@sign:colon", "[br]{ace}", "%41", "a%2Fb", "%25", "%zz%"][r.gen_range(0..13)].to_string(),
         "unicode" => ["é", "日本語", "😀 smile", "ñandú", "\u{200b}zero-width", "Ω≈ç√"][r.gen_range(0..6)].to_string(),
         "long" => "x".repeat(r.gen_range(2000..4000)),
         "slashes" => ["a/b", "/lead", "trail/", "a//b", "../up"][r.gen_range(0..5)].to_string(),
         "plus_space" => ["a+b c", "+", " ", "1 + 1 = 2"][r.gen_range(0..4)].to_string(),
+        // a marker that the encoders below turn into bytes that are not UTF-8
+        "invalid_utf8" => "ab\u{e000}INVALID\u{e000}cd".to_string(),
         _ => String::new(),
     }
 }
@@ -286,7 +288,13 @@ fn text_value(r: &mut StdRng, ty: &str, c: &str) -> (String, Option<Value>) {
     }
 }
 
+const INVALID_MARK: &str = "\u{e000}INVALID\u{e000}";
+
 fn enc_query_component(r: &mut StdRng, s: &str) -> String {
+    if s.contains(INVALID_MARK) {
+        let bad = ["%ff", "%C0%AF", "%80", "%ed%a0%80"][r.gen_range(0..4)];
+        return s.replace(INVALID_MARK, bad);
+    }
     // application/x-www-form-urlencoded: space as '+' or %20, everything else %XX
     let mut out = String::new();
     for &b in s.as_bytes() {
@@ -356,7 +364,12 @@ fn build(r: &mut StdRng, n: &str, comps: &[Value], valid: bool) -> Built {
         match pos.as_str() {
             "path" => {
                 let (text, val) = text_value(r, &ty, &c);
-                target = format!("/p/{}/{}/{}", ty, n, pct_encode_segment(r, &text));
+                let enc = if text.contains(INVALID_MARK) {
+                    text.replace(INVALID_MARK, ["%ff", "%C0%AF", "%80"][r.gen_range(0..3)])
+                } else {
+                    pct_encode_segment(r, &text)
+                };
+                target = format!("/p/{}/{}/{}", ty, n, enc);
                 want_path = val;
                 base = "path";
             }
@@ -412,7 +425,21 @@ fn build(r: &mut StdRng, n: &str, comps: &[Value], valid: bool) -> Built {
                 let mut j = random_j(r, flavor);
                 let good = serde_json::to_string(&j).unwrap();
                 let mut ctype: Option<String> = Some("application/json".into());
+                let mut raw_override: Option<Vec<u8>> = None;
                 let text: String = match c.as_str() {
+                    "invalid_utf8_in_string" => {
+                        // well-formed JSON except for bytes inside a string literal that are not UTF-8
+                        let marked = good.replacen("\"s\":\"", "\"s\":\"\u{e000}", 1);
+                        let mut bytes: Vec<u8> = vec![];
+                        for part in marked.split('\u{e000}').enumerate() {
+                            if part.0 > 0 {
+                                bytes.extend_from_slice([&b"\x80"[..], b"\xc3", b"\xc0\xaf", b"\xff"][r.gen_range(0..4)]);
+                            }
+                            bytes.extend_from_slice(part.1.as_bytes());
+                        }
+                        raw_override = Some(bytes);
+                        String::new()
+                    }
                     "ok" | "ok_unicode" | "ok_extremes" | "ok_escapes" => good,
                     "ok_unknown_member" => format!("{{\"zzz\":[1,{{}}],{}", &good[1..]),
                     "ok_optional_absent" => { j.o = None; let mut v = serde_json::to_value(&j).unwrap(); v.as_object_mut().unwrap().remove("o"); v.to_string() }
@@ -441,7 +468,7 @@ fn build(r: &mut StdRng, n: &str, comps: &[Value], valid: bool) -> Built {
                 };
                 target = format!("/b/json/{}", n);
                 if let Some(ct) = ctype { headers.push(("content-type".into(), ct)); }
-                body = Some(text.into_bytes());
+                body = Some(raw_override.unwrap_or_else(|| text.into_bytes()));
                 chunked = r.gen_bool(0.5);
                 want_body = Some(serde_json::to_value(&j).unwrap());
             }
@@ -454,6 +481,7 @@ fn build(r: &mut StdRng, n: &str, comps: &[Value], valid: bool) -> Built {
                     "ok_plus_space" => f.s = "a b+c".into(),
                     "ok_pct" => f.s = "100% &=?#".into(),
                     "ok_unicode" => f.s = "é日本".into(),
+                    "invalid_utf8" => f.s = format!("x{}y", INVALID_MARK),
                     _ => {}
                 }
                 let mut parts = vec![
